@@ -24,6 +24,7 @@ type PropConfig struct {
 	Uncovered   []string `json:"uncovered_clauses"`
 	Assumptions []string `json:"assumptions"`
 	Bounded     []string `json:"bounded"`
+	AuditRoots  []string `json:"audit_roots"` // C18: roots of the nondeterminism-source audit
 }
 
 type OblResult struct {
@@ -41,6 +42,7 @@ type OblResult struct {
 	All     []SolverResult `json:"-"`
 }
 
+var auditInfo []map[string]interface{}
 var verifRoot = "/verif"
 var repoRoot = "/repo"
 
@@ -189,7 +191,7 @@ func cmdCheck(record bool, args []string) int {
 	if !*keep {
 		defer os.RemoveAll(workDir)
 	}
-	timeout := 10
+	timeout := 20
 	if *tier == "thorough" {
 		timeout = 60
 	}
@@ -224,6 +226,25 @@ func cmdCheck(record bool, args []string) int {
 			jobs = append(jobs, job{o, file})
 		}
 	}
+	// audit of nondeterminism sources below the given roots: each must sit in a function under contract
+	auditInfo = nil
+	if len(pc.AuditRoots) > 0 {
+		var roots []*ssa.Function
+		for _, r := range pc.AuditRoots {
+			if f := idx[expandFuncName(r)]; f != nil {
+				roots = append(roots, f)
+			} else {
+				translErrs = append(translErrs, "audit root not found: "+r)
+			}
+		}
+		under := map[string]bool{}
+		for _, f := range fns {
+			under[shortFuncName(f)] = true
+		}
+		for _, s := range auditNondet(w, roots) {
+			auditInfo = append(auditInfo, map[string]interface{}{"func": s.Func, "kind": s.Kind, "pos": s.Pos, "under_contract": under[s.Func]})
+		}
+	}
 	// lemmas
 	lj, lerrs := lemmaJobs(w, pc, workDir)
 	translErrs = append(translErrs, lerrs...)
@@ -244,7 +265,7 @@ func cmdCheck(record bool, args []string) int {
 			var r SolverResult
 			var all []SolverResult
 			if j.o.Cover {
-				r = runSolverSimple("z3-new", j.file, 2)
+				r = runSolverSimple("z3-new", j.file, 1)
 				all = []SolverResult{r}
 			} else {
 				r, all = raceSolvers(j.file, timeout, *tier == "thorough")
